@@ -183,8 +183,7 @@ structure SrvCase where
   req : SrvReq
   h : Handler
 
-def parseSrv (ts : List String) : Option SrvCase := do
-  let (shape, ts) ← tok ts
+def parseSrv (shape : String) (ts : List String) : Option SrvCase := do
   let shape ← shapeOf shape
   let (route, ts) ← tok ts
   let (acc, ts) ← tok ts
@@ -209,14 +208,23 @@ def parseSrv (ts : List String) : Option SrvCase := do
   if route ≠ "d" ∧ route ≠ "c" then none
   pure { route, acc, snd, req := { shape, encVals, accVals, frames }, h }
 
+def encLetters (vals : List Bytes) : String :=
+  if vals.isEmpty then "-"
+  else String.ofList (vals.map (fun v =>
+    if v = Compression.gzipName then 'g' else if v = Compression.deflateName then 'd'
+    else if v = Compression.zstdName then 'z' else '?'))
+
+/-- first token: a summary `s<code>.<class>.<announced encodings>` (feeds the evidence's
+distribution; redundant with the rest) -/
 def showSrv (o : SrvObs) : String :=
   String.intercalate " "
-    ["called", if o.called then "1" else "0", "saw", showList showItem o.saw,
+    ["s" ++ toString o.stCode ++ "." ++ showCls o.stCls ++ "." ++ encLetters o.enc, "called", if o.called then "1" else "0", "saw", showList showItem o.saw,
      "enc", showList hex o.enc, "acc", showList hex o.acc,
      "st", showWhere o.stWhere, toString o.stCode, showCls o.stCls,
      "fr", showList showFrame o.frames]
 
 def parseSrvObs (ts : List String) : Option SrvObs := do
+  let (_, ts) ← tok ts
   let (_, ts) ← lit "called" ts
   let (c, ts) ← num ts
   let (_, ts) ← lit "saw" ts
@@ -237,8 +245,8 @@ def parseSrvObs (ts : List String) : Option SrvObs := do
 def slotsOf (route : String) (cs : List Call) : Compression.Slots :=
   Compression.configure (route = "d") cs
 
-def handleSrv (ts obs : List String) : String × String :=
-  match parseSrv ts with
+def handleSrv (shape : String) (ts obs : List String) : String × String :=
+  match parseSrv shape ts with
   | none => bad
   | some c =>
     let model := Compression.serve (slotsOf c.route c.acc) (slotsOf c.route c.snd) c.req c.h
@@ -265,8 +273,7 @@ structure CliCase where
   k : Nat
   resp : CliResp
 
-def parseCli (ts : List String) : Option CliCase := do
-  let (shape, ts) ← tok ts
+def parseCli (shape : String) (ts : List String) : Option CliCase := do
   let shape ← shapeOf shape
   let (snd, ts) ← tok ts
   let snd ← callsOf snd
@@ -290,11 +297,16 @@ def sendOf (cs : List Call) : Option Enc :=
   cs.foldl (fun cur c => match c with | .en e => some e | .pop => cur) none
 
 def showCli (o : CliObs) : String :=
+  let outcome := match o.result.getLast? with
+    | none => "none"
+    | some (.ok _) => "ok"
+    | some it => showItem it
   String.intercalate " "
-    ["enc", showList hex o.enc, "acc", showList hex o.acc, "fr", showList showFrame o.frames,
+    ["c" ++ outcome ++ "." ++ encLetters o.enc, "enc", showList hex o.enc, "acc", showList hex o.acc, "fr", showList showFrame o.frames,
      "res", showList showItem o.result, "eacc", showList hex o.errAcc]
 
 def parseCliObs (ts : List String) : Option CliObs := do
+  let (_, ts) ← tok ts
   let (enc, ts) ← hexList "enc" ts
   let (acc, ts) ← hexList "acc" ts
   let (_, ts) ← lit "fr" ts
@@ -305,8 +317,8 @@ def parseCliObs (ts : List String) : Option CliObs := do
   if ts ≠ [] then none
   pure { enc, acc, frames, result, errAcc }
 
-def handleCli (ts obs : List String) : String × String :=
-  match parseCli ts with
+def handleCli (shape : String) (ts obs : List String) : String × String :=
+  match parseCli shape ts with
   | none => bad
   | some c =>
     let cfg : Compression.CliCfg := { send := sendOf c.snd, accept := Compression.runCalls c.acc }
@@ -324,8 +336,10 @@ def handleCli (ts obs : List String) : String × String :=
 
 def handle (case obs : List String) : String × String :=
   match case with
-  | "srv" :: ts => handleSrv ts obs
-  | "cli" :: ts => handleCli ts obs
+  | k :: ts =>
+    if k.startsWith "srv." then handleSrv (k.drop 4).toString ts obs
+    else if k.startsWith "cli." then handleCli (k.drop 4).toString ts obs
+    else bad
   | _ => bad
 
 end DriverC05
